@@ -25,6 +25,9 @@ ASSUMPTIONS = [
     'model of msgs/message.py + utils.ByteBuffer is hand-written (lean/PyIpmi/Model/Codec.lean) and tied by this correspondence run',
     'layouts are regenerated from the live registry each run (Gen/Registry.lean); field classes whose encode/decode/create differ from the known base classes abort generation',
     'round-trip theorem requires completion_code = 0 (a non-OK code stops decoding by design, see C02.cc_stops)',
+    'the model is a function of the field values only (a message object has no other state): histories on one real '
+    'object are compared step by step with the model applied to the values the caller put last; a conditional field '
+    'that is not on the wire has no value to compare after decode_message into a used object',
 ]
 TRUSTED = ['harness/translate/registry.py', 'harness/codec_common.py']
 
